@@ -19,7 +19,9 @@ EXPLANATION = (
     "TypeSpace's and Type's fields are private and the IR types are not exported, so ids and entries can only come from the space; "
     "(W3, exactness) when an insert into name_to_id can run on a hit, the rejecting guard is exactly `existing != inserted "
     "id` and the lookup uses the inserted key; (W6) the IR types inside the key of the structural dedup map derive PartialEq, "
-    "PartialOrd and Ord together; (W7) no public ingestion entry returns anything but an error before converting its schema."
+    "PartialOrd and Ord together; (W7) no public ingestion entry returns anything but an error before converting its schema; "
+    "(W8) the kinds of entry that are found through the name index (TypeEntry::name is Some) are exactly the kinds for which an "
+    "item is emitted: every other kind is de-duplicated by its full structure."
 )
 ASSUMPTIONS = ["BTreeMap/BTreeSet semantics of std", "no unsafe code in typify-impl (checked: 0 unsafe blocks reported by the driver's HIR)"]
 
@@ -296,6 +298,7 @@ def run(facts, rep, tier):
     c = facts.impl
     check_dedup_key_order(facts, rep, "C16.W6")
     check_entries_convert(facts, rep, "C16.W7")
+    check_named_kinds(facts, rep, "C16.W8")
     allocs = allocator_fns(c)
     rep.floor("C16.W1", "id allocator (constructs TypeId(next_id) and advances it)", len(allocs), 1)
     acc = field_accesses(c, is_typespace, INDEX_FIELDS)
@@ -529,3 +532,45 @@ def check_entries_convert(facts, rep, RULE):
         rep.ob(RULE, "converts-before-answering:%s" % h["fn"], ok,
                "the schema is converted before anything is returned (only error exits precede the conversion)" if ok else
                ("`%s` returns before the schema is converted: the answer is a type registered for some other schema, re-adding a schema can return a different identifier and the set of definitions depends on the order of the calls" % src(early[0])[:80] if early else "the conversion call is not at the top level of the entry"), (early[0] if early else h).get("sp") or c.fns[h["fn"]].get("sp"))
+
+
+# ---------------------------------------------------------------- W8 the name index holds the kinds that have an item
+def check_named_kinds(facts, rep, RULE):
+    """assign_type looks an entry up by name when TypeEntry::name() is Some and by its full details otherwise. The kinds
+    with a name must be the kinds that produce an item (enum / struct / newtype): a kind without an item that acquired a
+    name (a native path, an array, an option) would be found by that name alone, and two uses that differ in their type
+    parameters or element type would get one identifier."""
+    from lib import arms_by_variant, plain_arms, src, block_last, calls_in, nodes
+    c = facts.impl
+    nm = [h for h in c.user_fns() if h["fn"].endswith("TypeEntry::name")]
+    out = [h for h in c.user_fns() if h["fn"].endswith("TypeEntry::output")]
+    if not rep.floor(RULE, "TypeEntry::name and TypeEntry::output", len(nm) + len(out), 2):
+        return
+    def table(h):
+        ms = [n for n, _ in nodes(h["body"], "match") if n.get("src") == "normal" and any("TypeEntryDetails" in v for a in n["arms"] for v in (pat_top_variants(a["pat"]) or []))]
+        return ms[0] if ms else None
+    from lib import pat_top_variants
+    mn, mo = table(nm[0]), table(out[0])
+    if not rep.floor(RULE, "kind tables of name() and output()", (1 if mn else 0) + (1 if mo else 0), 2):
+        return
+    why = plain_arms(mn) or plain_arms(mo)
+    rep.ob(RULE, "kind-tables-plain", why is None, "one unguarded arm per kind" if why is None else "a guarded or duplicate arm decides a kind outside the table (%s)" % why, mn.get("sp"), nontrivial=False)
+    named = set()
+    for v, arms in arms_by_variant(mn).items():
+        for a in arms:
+            t = src(block_last(a["body"]))
+            if not (t == "None" or t.endswith("::None")):
+                named.add(v)
+    emitted = set()
+    for v, arms in arms_by_variant(mo).items():
+        for a in arms:
+            if any(x.split("::")[-1].startswith("output_") for x in calls_in(a["body"])):
+                emitted.add(v)
+    rep.floor(RULE, "kinds that emit an item", len(emitted), 3)
+    for v in sorted((named | emitted) - {"_"}):
+        ok = (v in named) == (v in emitted)
+        rep.ob(RULE, "named-iff-emitted:%s" % v, ok, "found by name and emitted as an item" if ok else
+               ("`%s` entries have a name but no item: they are de-duplicated by that name alone, so two uses that differ in parameters / element types share one identifier and two definitions of them collide" % v if v in named else
+                "`%s` entries are emitted as an item but have no name: they are not registered in the name index, so two of them can be emitted under one name" % v), mn.get("sp"))
+    if "_" in named:
+        rep.ob(RULE, "named-iff-emitted:_", False, "the catch-all arm of TypeEntry::name() yields a name: kinds without an item are found by name", mn.get("sp"))
